@@ -53,6 +53,9 @@ void harness (void) {
   for (int i = 0; i < H_L; i++) h_in[i] = (uint8_t) nd ();
   /* ---- encode ---- */
   struct reduce_data *e = reduce_encode_start (&h_alloc, h_writer, NULL);
+  /* the encoder's window is arbitrary at the start: in a multi-buffer stream the bytes beyond buf_bound are STALE
+     bytes of the previous buffer (made explicit, and replayable, with nd()) */
+  for (int i = 0; i < H_BUF; i++) e->buf[i] = (uint8_t) nd ();
   for (int i = 0; i < H_L; i++) reduce_encode_put (e, h_in[i]);
   int eok = reduce_encode_finish (&h_alloc, e);
   H_ASSERT (eok, "encoder reports success");
